@@ -446,6 +446,13 @@ def run(ctx):
     if type(ctx).__name__ != 'SubCtx':     # (C17 re-runs rules of this module: do not chase the circle)
         _c17.run(_Sub19(ctx, 'C19.1-call-table-untouched', 'c17', allow=('C17.4-table-accessors',)))
 
+    # "exactly that recipient": the tables are keyed by pid, so what a pid IS (node, id, serial, creation) decides who gets the message
+    ctx.rule('C19.1-recipient-identity', 'equality, hash and order of the identifier types read all their logical fields - creation included (rule C10.3-logical-fields re-run): '
+             'a pid of an earlier incarnation of the node (same id and serial, other creation) must not resolve to a live process', floor=9)
+    from ..order import SubCtx as _SubRI
+    from . import c10 as _c10ri
+    _c10ri.run(_SubRI(ctx, 'C19.1-recipient-identity', 'c10', allow=('C10.3-logical-fields',)))
+
 
 def _outcomes(L, start, loop, recv_bb):
     """Outcomes {'continue','break'} reachable from `start`, propagating constant bools assigned on the
